@@ -10,6 +10,7 @@ CONSTANTS
   DotAll = TRUE
   FindFirst = FALSE
   Emit = "none"
+  BlockLen = 0
 SPECIFICATION TSpec
 INVARIANT TImplAgrees
 CHECK_DEADLOCK FALSE
